@@ -61,6 +61,47 @@
 //             1503, 1535 when a branch of a decision node dies in an incremental re-solve) dereferences it: SIGSEGV.  Check: crash
 //             (exit 51); guard: the re-solve is tried in a forked child first, a problem whose re-solve crashes is rebuilt from its data.
 //
+//   KF-C07-6  PIP_Solution_Node::solve(), case "then branch unfeasible, else branch feasible" (PIP_Tree.cc:3211-3223): the else branch is
+//             *this re-solved in place after its constraints and artificial parameters were swapped aside; on return the saved lists
+//             are swapped BACK instead of being merged, so every artificial parameter and every validity constraint produced while
+//             solving the else branch is dropped (and when that solve returned a new decision node - PPL_ASSERT(f_node == this) - the
+//             tests of that node are replaced).  {4B+2C-4D-6>=0, 4B+C>=0, 3A+4D-17=0, B,C,D<=5}, parameter A, DEEPEST/MAX_COLUMN gives
+//             "if -A >= -5 and -A >= -4 then {-E+4 ; 2E-2G+5 ; -G+5}" with E, G declared nowhere.  Checks tree.undeclared_dimension,
+//             problem.OK (first solve); the silent variant (only validity constraints lost) would show as eval.point_feasible /
+//             eval.lexmin: {-3A+2B+C+D-1=0, 3A-D+6>=0, -A+2C+D>=0, A<=2, 4B<=5, C<=2, D<=2}, parameters A B, FIRST/MAX_COLUMN gives
+//             (C,D) = (0,4) at A=1, B=0.  Guard: a tree with undeclared artificial parameters or with OK() false is not evaluated
+//             (case abandoned); in assertion-enabled builds the lead PPL_ASSERT(f_node == this) is used the same way.  The fully
+//             silent variant (f_node == this, only validity constraints lost) cannot be recognised from outside and is NOT guarded.
+//   KF-C07-7  PIP_Solution_Node::update_tableau() (PIP_Tree.cc:2560) stores the coefficient of a parameter with Row::insert(), which
+//             OVERWRITES what the substitution of an earlier non-basic variable of the same constraint (line 2572) accumulated in that
+//             column: a constraint added after a solve that mentions a variable v and a parameter q > v whose stored solution depends
+//             on q enters the tableau wrongly ({-B+3C-5>0, 4B-4C+2>=0, A<=5, 3A-4C+4>=0, 2B+4C+6>0} solved, then -4A-B+4C>=0 added:
+//             A = 3 at B = C = 3 violates it).  Checks eval.point_feasible / eval.lexmin / eval.bottom / incremental.equals_fresh;
+//             guard: such rows are not added.
+//   KF-C07-8  On a re-solve the artificial parameters stored in the tree only get zero columns in the context
+//             (add_artificial_parameters, PIP_Tree.cc:245-251, called at 1436 and 2646): their defining inequalities
+//             d*q <= expr <= d*q + d - 1 are not put back, so compatibility checks treat them as free parameters: wrong signs, validity
+//             constraints that can never hold (OPTIMIZED with a tree that is bottom everywhere), wrong points.  Checks
+//             status.optimized_but_bottom_everywhere / eval.* / incremental.equals_fresh; guard: a problem whose stored tree has an
+//             artificial parameter is rebuilt from its data before it is solved again.
+//
+//   KF-C07-10 PIP_Decision_Node::solve() (PIP_Tree.cc:1475-1492): when the false child of a decision node becomes unfeasible in a
+//             re-solve, the node is replaced by its true child and its tests are dropped as "no longer discriminative" - but where the
+//             test fails the answer is now bottom, not the true child's solution.  {A,B,D <= 6, -4C+D+2 > 0}, parameter C, solved
+//             ("if -C >= 0 then {0;0;0} else if -C >= -1 then {0;0;4C-1} else _|_"), then 3D-3 = 0 added: the tree becomes {0;0;1}
+//             for every C although C >= 1 is unfeasible.  Checks eval.point_feasible / eval.lexmin / incremental.equals_fresh; guard:
+//             a problem whose stored tree has a decision node with a false child is rebuilt from its data before it is solved again.
+//   KF-C07-9  PIP_Solution_Node::Tableau::is_better_pivot() (PIVOT_ROW_STRATEGY_MAX_COLUMN only), sparse rows: (a) the loop at
+//             PIP_Tree.cc:1826-1832 lacks ++j1 and never terminates when row_1 has a stored parameter column beyond the last one of
+//             row_0 and s[i][col_1] == 0; (b) at end_loop (line 1837) *j0 and *j1 are passed to column_lower() although one of them
+//             may be end() (mismatch found in a trailing loop) or they designate different columns: invalid read, SIGSEGV in mpz_mul
+//             depending on the heap contents (not reproducible by a replay in a fresh process).  Needs >= 2 columns in the parameter
+//             matrix, i.e. >= 1 parameter.  Check: crash (exit 51) / wall-clock guard; guard: the solve is tried in a forked child
+//             first; if it crashes the strategy is reset to PIVOT_ROW_STRATEGY_FIRST, if it hangs the case is inconclusive.
+//   Big parameter: it only occurs the documented way (x_j replaced by x'_j - M or M - x'_j).  With arbitrary coefficients (3A >= 2M - 5,
+//   3A <= 2M) the cuts need artificial parameters over M and row_sign() then trusts the sign of M's coefficient alone: PPL answers
+//   UNFEASIBLE.  Reported as a suspected defect, not claimed by this harness.
+//
 // Termination is not part of the property: every solve runs under a Threshold_Watcher<Weightwatch_Traits> whose handler throws
 // (=> vf::Inconclusive) and under a 3 s SIGALRM guard that leaves solve() by siglongjmp (=> vf::Inconclusive, the problem object is
 // leaked): PIP_Solution_Node::Tableau::is_better_pivot() (PIVOT_ROW_STRATEGY_MAX_COLUMN) has a loop that never polls maybe_abandon().
@@ -109,20 +150,22 @@ static PIP_Problem_Status guarded_solve(const PIP_Problem& p) {
   g_armed = 0; timer_set(0); delete g_ww; g_ww = 0;
   return st;
 }
-// true iff p.solve() dies from a signal in a forked child (used only under KF-C07-5)
-static bool solve_crashes(const PIP_Problem& p) {
+// p.solve() in a forked child (same address space contents, hence the same behaviour): 0 returns, 1 dies from a signal, 2 still
+// running after 3 s (used only under KF-C07-5 and KF-C07-9)
+static int solve_probe(const PIP_Problem& p) {
   std::cout.flush(); std::cerr.flush(); fflush(0);
   pid_t pid = fork(); if (pid < 0) throw Inconclusive("fork failed");
   if (pid == 0) {
     for (int sg : { SIGSEGV, SIGABRT, SIGFPE, SIGBUS, SIGILL, SIGALRM }) std::signal(sg, SIG_DFL);
     int fd = ::open("/dev/null", O_WRONLY); if (fd >= 0) { ::dup2(fd, 2); ::dup2(fd, 1); }
-    alarm(5);
+    alarm(3);
     try { Weightwatch ww(WEIGHT_LIMIT, too_fat); (void) p.solve(); } catch (...) {}
     ::_exit(0);
   }
   int status = 0; while (waitpid(pid, &status, 0) < 0) {}
-  return WIFSIGNALED(status) && WTERMSIG(status) != SIGALRM;
+  return !WIFSIGNALED(status) ? 0 : WTERMSIG(status) == SIGALRM ? 2 : 1;
 }
+static bool solve_crashes(const PIP_Problem& p) { return solve_probe(p) == 1; }
 struct Prob {                         // owner that leaks after an abandoned solve (the object is then in an unspecified state)
   PIP_Problem* p;
   Prob() : p(0) {}
@@ -190,7 +233,7 @@ static bool feasible_z(const Model& m, const std::vector<Z>& x, std::string& why
 }
 
 // ------------------------------------------------------------------ tree evaluation through the public interface
-struct Point { bool skipped = false, bottom = true; std::vector<Z> x; int depth = 0, arts = 0; bool art_zero = false; };
+struct Point { bool skipped = false, bottom = true; std::vector<Z> x; int depth = 0, arts = 0; bool art_zero = false, zero_par = false; };
 static std::string pt_str(const Point& p) { if (p.skipped) return "skipped"; if (p.bottom) return "bottom"; std::string s = "("; for (size_t i = 0; i < p.x.size(); ++i) s += (i ? "," : "") + p.x[i].get_str(); return s + ")"; }
 
 struct Shape { int decisions = 0, leaves = 0, arts = 0, depth = 0, false_children = 0, art_refs = 0;
@@ -271,20 +314,28 @@ static const long BIGM = 1000000;
 static long small(Tape& t, int maxabs) { long i = t.range(0, 2 * maxabs + 4); if (i > 2 * maxabs) return 0; return (i & 1) ? (i + 1) / 2 : -(i / 2); }
 
 struct Prog {
-  Ctx& c; Tape& t; Model m; Prob P; int mutations = 0; int solves = 0; bool boxed = true; long U = 4; std::vector<long> wit; size_t solved_dims = 0;
+  Ctx& c; Tape& t; Model m; Prob P; int mutations = 0; int solves = 0; bool boxed = true; long U = 4; std::vector<long> wit; std::vector<int> subst; size_t solved_dims = 0;
   bool any_shape_nt = false; std::string last_shape, last_status; Shape last_sh, p_sh; bool abandon = false;
   Prog(Ctx& c_) : c(c_), t(c_.t) {}
 
   Row gen_row(bool context_only) {
     Row r; r.a.assign(m.n, 0);
-    for (size_t j = 0; j < m.n; ++j) { if (context_only && (!m.par[j] || (long) j == m.big)) continue; r.a[j] = small(t, 4); }
+    for (size_t j = 0; j < m.n; ++j) { if ((long) j == m.big || (context_only && !m.par[j])) continue; r.a[j] = small(t, 4); }
     r.b = small(t, 6); r.k = (int) t.weighted({70, 15, 15}); r.k = r.k == 0 ? 1 : r.k == 1 ? 0 : 2;
+    // The big parameter M only occurs the documented way: a row over "original" variables in which x_j is replaced by
+    // x'_j - M (sign-unrestricted x_j, subst +1) or by M - x'_j (maximised x_j, subst -1).
+    if (m.big >= 0) { for (size_t j = 0; j < m.n && j < subst.size(); ++j) if (!m.par[j] && subst[j] != 0) { if (subst[j] > 0) r.a[m.big] -= r.a[j]; else { r.a[m.big] += r.a[j]; r.a[j] = -r.a[j]; } } return r; }
     if (t.chance(50)) {                      // make the witness satisfy it (more feasible problems)
       long v = r.b; for (size_t j = 0; j < m.n; ++j) v += r.a[j] * wit[j];
       if (r.k == 0) r.b -= v; else if (v < (r.k == 2 ? 1 : 0)) { for (size_t j = 0; j < m.n; ++j) r.a[j] = -r.a[j]; r.b = -r.b; if (r.k == 2 && v == 0) r.b += 1; } }
     return r;
   }
   Row box_row(size_t j, long ub) { Row r; r.a.assign(m.n, 0); r.a[j] = -1; r.b = ub; r.k = 1; return r; }
+  // box of a variable: 0 <= x <= U, or -U <= original x <= U for a substituted one (two rows in x' and M)
+  void push_box(size_t j) {
+    if (m.big >= 0 && j < subst.size() && subst[j] != 0) { Row r = box_row(j, U); r.a[m.big] = 1; m.rows.push_back(r); Row q; q.a.assign(m.n, 0); q.a[j] = 1; q.a[m.big] = -1; q.b = U; q.k = 1; m.rows.push_back(q); }
+    else m.rows.push_back(box_row(j, U));
+  }
 
   PIP_Problem* build(int variant) {          // three ways of constructing the same problem
     PIP_Problem* p = 0;
@@ -313,8 +364,15 @@ struct Prog {
   // Solves p (already holding the model's data), checks status/structure, evaluates every assignment against the oracle.
   std::vector<Point> check(PIP_Problem& p, const std::string& how) {
     ++solves;
-    unsigned long long w0 = Weightwatch_Traits::weight;
+    if (kf("KF-C07-9") && m.piv == 1 && !m.params().empty() && p.get_control_parameter(PIP_Problem::PIVOT_ROW_STRATEGY) == PIP_Problem::PIVOT_ROW_STRATEGY_MAX_COLUMN) {
+      int pr = solve_probe(p);
+      if (pr == 2) throw Inconclusive("PIVOT_ROW_STRATEGY_MAX_COLUMN: solve() does not return (forked probe)");
+      if (pr == 1) { c.excluded("KF-C07-9"); c.log << "  (solve() crashes in a forked child under PIVOT_ROW_STRATEGY_MAX_COLUMN: strategy set to FIRST, KF-C07-9)\n"; m.piv = 0; p.set_control_parameter(pivv(0)); }
+    }
+    unsigned long long w0 = Weightwatch_Traits::weight; size_t a0 = fired_asserts().size();
     PIP_Problem_Status st = guarded_solve(p);
+    if (kf("KF-C07-6")) for (size_t i = a0; i < fired_asserts().size(); ++i) if (fired_asserts()[i].find("(f_node == this)") != std::string::npos) {   // lead available in assertion-enabled builds only
+      c.excluded("KF-C07-6"); c.log << "    (PPL_ASSERT(f_node == this) fired inside solve(): KF-C07-6, case abandoned)\n"; abandon = true; return std::vector<Point>(); }
     unsigned long long w = Weightwatch_Traits::weight - w0;
     PIP_Tree root = p.solution();
     c.log << "  " << how << ": solve -> " << (st == UNFEASIBLE_PIP_PROBLEM ? "UNFEASIBLE" : "OPTIMIZED") << " (weight " << w << ")\n";
@@ -324,7 +382,10 @@ struct Prog {
     c.check("status.optimizing_solution_same", p.optimizing_solution() == root, "optimizing_solution() != solution()");
     c.check("status.is_satisfiable", p.is_satisfiable() == (st == OPTIMIZED_PIP_PROBLEM), "is_satisfiable() disagrees with solve()");
     c.check("status.solve_idempotent", p.solve() == st && p.solution() == root, "a second solve() changed the status or the tree");
-    c.check("problem.OK", p.OK(), "OK() is false after solve()");
+    { bool ok = p.OK();
+      if (!ok && kf("KF-C07-6")) { c.excluded("KF-C07-6"); c.log << "    (OK() false after solve(): KF-C07-6, case abandoned)\n"; abandon = true; return std::vector<Point>(); }
+      c.check("problem.OK", ok, [&] { return "OK() is false after solve(); " + ctxmsg(); });
+      if (!ok) { abandon = true; return std::vector<Point>(); } }
     c.check("problem.space_dimension", p.space_dimension() == m.n, [&] { return "space_dimension() = " + std::to_string(p.space_dimension()) + ", expected " + std::to_string(m.n); });
     { const Variables_Set& ps = p.parameter_space_dimensions(); bool ok = ps.size() == m.params().size(); for (size_t j = 0; j < m.n; ++j) if ((ps.count(j) != 0) != (bool) m.par[j]) ok = false;
       c.check("problem.parameter_space_dimensions", ok, [&] { std::ostringstream o; o << "parameter_space_dimensions() = " << ps << "; " << ctxmsg(); return o.str(); }); }
@@ -356,15 +417,19 @@ struct Prog {
     bool params_bounded = m.big < 0;
     for (size_t q : nb) { long best = INF; for (const Row& r : m.rows) { long a = coef(r, q); if (a >= 0 || r.k == 0) continue; bool single = true; for (size_t j = 0; j < m.n; ++j) if (j != q && coef(r, j) != 0) single = false; if (single) best = std::min(best, fdiv(r.b - (r.k == 2 ? 1 : 0), -a)); } if (best > PW) params_bounded = false; }
 
-    std::vector<Point> out; std::vector<long> pv(nb.size(), 0); bool any_solution = false; long evaluated = 0;
+    std::vector<Point> out; std::vector<long> pv(nb.size(), 0); bool any_solution = false; long evaluated = 0, residue_skips = 0;
     for (;;) {
       for (int bigk = 0; bigk < (m.big >= 0 ? 2 : 1); ++bigk) {
         std::vector<long> x(m.n, 0); for (size_t i = 0; i < nb.size(); ++i) x[nb[i]] = pv[i]; if (m.big >= 0) x[m.big] = BIGM + bigk;
         bool in_ctx = true; for (const Row& r : m.rows) if (m.is_context(r)) { long v = r.b; for (size_t j = 0; j < m.n; ++j) v += coef(r, j) * x[j]; if (r.k == 0 ? v != 0 : r.k == 1 ? v < 0 : v <= 0) { in_ctx = false; break; } }
         if (!in_ctx) { Point sk; sk.skipped = true; out.push_back(sk); continue; }
+        if (m.big >= 0 && exact) {   // "for all sufficiently large values": nothing is claimed where feasibility depends on the residue of the big parameter
+          bool h[2]; for (int b2 = 0; b2 < 2; ++b2) { std::vector<long> y = x; y[m.big] = BIGM + b2; std::vector<std::vector<long> > cd(vs.size()); for (size_t k = 0; k + 1 < vs.size(); ++k) for (long v = 0; v <= ub[k]; ++v) cd[k].push_back(v); h[b2] = lexmin_rec(m, vs, cd, 0, y); }
+          if (h[0] != h[1]) { Point sk; sk.skipped = true; out.push_back(sk); ++residue_skips; continue; } }
         ++evaluated;
         std::vector<Z> val(m.n, Z(0)); for (size_t j = 0; j < m.n; ++j) if (m.par[j]) val[j] = x[j];
         Point tp = ev.run(root, val);
+        for (size_t q : nb) if (x[q] == 0) tp.zero_par = true;
         auto amsg = [&]() { std::ostringstream o; o << "at"; for (size_t q : ps) o << " " << nm(q) << "=" << x[q]; if (ps.empty()) o << " (no parameters)"; return o.str(); };
         // candidates
         std::vector<std::vector<long> > cand(vs.size());
@@ -409,13 +474,19 @@ struct Prog {
 
   void same_points(const char* id, const std::vector<Point>& a, const std::vector<Point>& b, const std::function<std::string()>& msg) {
     bool ok = a.size() == b.size(); size_t bad = 0;
-    for (size_t i = 0; ok && i < a.size(); ++i) { if (a[i].skipped != b[i].skipped || a[i].bottom != b[i].bottom) { ok = false; bad = i; break; } if (!a[i].skipped && !a[i].bottom && a[i].x != b[i].x) { ok = false; bad = i; } }
+    for (size_t i = 0; ok && i < a.size(); ++i) {
+      if (!a[i].skipped && !b[i].skipped && a[i].bottom != b[i].bottom && a[i].zero_par && kf("KF-C07-1")) { c.excluded("KF-C07-1"); continue; }   // one of them is the false bottom of KF-C07-1
+      if (a[i].skipped != b[i].skipped || a[i].bottom != b[i].bottom) { ok = false; bad = i; break; } if (!a[i].skipped && !a[i].bottom && a[i].x != b[i].x) { ok = false; bad = i; } }
     c.check(id, ok, [&] { return "assignment #" + std::to_string(bad) + ": " + (bad < a.size() ? pt_str(a[bad]) : "?") + " vs " + (bad < b.size() ? pt_str(b[bad]) : "?") + "; " + msg(); });
   }
 
   // KF-C07-5: the re-solve of a problem whose tree has decision nodes may dereference a null parent pointer.  Under the known finding
   // the re-solve is first tried in a forked child; if that crashes the problem is rebuilt from its data (the history goes on).
   void resolve_guard() {
+    // KF-C07-8: the re-solve does not put the defining inequalities of the stored artificial parameters back into the context
+    if (kf("KF-C07-8") && p_sh.arts > 0) { c.excluded("KF-C07-8"); c.log << "  (stored tree has artificial parameters: problem rebuilt from its data, KF-C07-8)\n"; P.reset(build(0)); return; }
+    // KF-C07-10: a decision node whose false child dies in the re-solve is replaced by its true child WITHOUT its tests
+    if (kf("KF-C07-10") && p_sh.false_children > 0) { c.excluded("KF-C07-10"); c.log << "  (stored tree has a decision node with a false child: problem rebuilt from its data, KF-C07-10)\n"; P.reset(build(0)); return; }
     if (!kf("KF-C07-5") || p_sh.decisions == 0) return;
     if (solve_crashes(*P.p)) { c.excluded("KF-C07-5"); c.log << "  (re-solve crashes in a forked child: problem rebuilt from its data, KF-C07-5)\n"; P.reset(build(0)); }
   }
@@ -437,13 +508,15 @@ struct Prog {
     wit.resize(12); for (size_t j = 0; j < wit.size(); ++j) wit[j] = t.range(0, 3);
     size_t nv = (size_t) t.range(1, 3), np = (size_t) t.range(0, 2); m.n = nv + np; m.par.assign(m.n, false);
     { std::vector<size_t> d; for (size_t j = 0; j < m.n; ++j) d.push_back(j); for (size_t q = 0; q < np; ++q) { size_t k = (size_t) t.range(0, (long) d.size() - 1); m.par[d[d.size() - 1 - k]] = true; d.erase(d.begin() + (d.size() - 1 - k)); } }   // choice 0: the last dimensions
-    if (np >= 1 && t.chance(20)) { std::vector<size_t> ps = m.params(); m.big = (long) t.pick(ps); }
-    boxed = !t.chance(15); U = t.range(1, 6); m.cut = (int) t.range(0, 2); m.piv = (int) t.range(0, 1);
+    subst.assign(m.n, 0);
+    if (np >= 1 && t.chance(20)) { std::vector<size_t> ps = m.params(); m.big = (long) t.pick(ps); for (size_t j : m.vars()) { int k = t.weighted({30, 35, 35}); subst[j] = k == 0 ? 0 : k == 1 ? 1 : -1; } }
+    boxed = !t.chance(15) || m.big >= 0; U = t.range(1, 6);   // (big parameter: every variable is boxed, so that the solutions have the documented form M + k / M - k / k)
+    { long k = (t.range(0, 5) + (long) nv + 2 * (long) np + U) % 6; m.cut = (int) (k % 3); m.piv = (int) (k / 3); }   // (spread: the tape is biased towards small choices)
     int nrows = (int) t.range(0, 5);
     for (int i = 0; i < nrows; ++i) m.rows.push_back(gen_row(false));
     if (np >= 1) { int k = t.weighted({50, 35, 15}); for (int i = 0; i < k; ++i) m.rows.push_back(gen_row(true));
       if (t.chance(40)) for (size_t q : m.params()) if ((long) q != m.big) m.rows.push_back(box_row(q, t.range(2, 7))); }
-    if (boxed) for (size_t j : m.vars()) m.rows.push_back(box_row(j, U));
+    if (boxed) for (size_t j : m.vars()) push_box(j);
     int variant = (int) t.range(0, 2);
     c.log << "PIP " << describe(m) << "\n  built by " << (variant == 0 ? "PIP_Problem(dim, first, last, params)" : variant == 1 ? "PIP_Problem(dim) + add_to_parameter_space_dimensions + add_constraints" : "PIP_Problem() + add_space_dimensions_and_embed + add_constraint") << "\n";
     P.reset(build(variant));
